@@ -146,7 +146,8 @@ var sliceCounts = map[string]func(c Cell) []int{
 	"playerinfo.Upsert.Entries.Profile.Properties":  func(Cell) []int { return []int{15, 16} },
 	"legacytablist.PlayerListItem.Items.Properties": func(Cell) []int { return []int{15, 16} },
 	// 1.19.1 signed chat: at most 5 previous messages
-	"chat.KeyedPlayerChat.PreviousMessages": func(Cell) []int { return []int{4, 5} },
+	"chat.KeyedPlayerChat.PreviousMessages":    func(Cell) []int { return []int{4, 5} },
+	"chat.KeyedPlayerCommand.PreviousMessages": func(Cell) []int { return []int{4, 5} },
 	// signed command arguments: at most 8
 	"chat.SessionPlayerCommand.ArgumentSignatures.Entries":                       func(Cell) []int { return []int{7, 8} },
 	"chat.UnsignedPlayerCommand.SessionPlayerCommand.ArgumentSignatures.Entries": func(Cell) []int { return []int{7, 8} },
